@@ -62,6 +62,8 @@ def b_isinstance(interp: Interp, v, T):
         if not sym:
             return False
         return z3.Or(*[to_z3(p) for p in sym])
+    if isinstance(T, PyType):
+        T = T.pytype
     if isinstance(T, TypeToken):
         if T.pred is None:
             raise Unsupported(f"isinstance(_, {T.name}) without predicate")
@@ -112,6 +114,10 @@ def b_issubclass(interp, C, T):
         return T in C.mro(interp)
     if isinstance(C, TypeToken):
         return C is T or T in C.supers
+    if isinstance(C, PyType):
+        C = C.pytype
+    if isinstance(T, PyType):
+        T = T.pytype
     if isinstance(C, type) and isinstance(T, type):
         return issubclass(C, T)
     raise Unsupported(f"issubclass({C!r}, {T!r})")
@@ -161,6 +167,8 @@ def b_id(interp, o):
 
 @wants_interp
 def b_tuple(interp, x=()):
+    if hasattr(x, "__sym_as_seq__"):
+        return x.__sym_as_seq__(interp)
     if isinstance(x, SSeq):
         if x.kind == "tuple":
             return x
@@ -341,6 +349,32 @@ def b_sorted(interp, it, **kw):
     return sorted(xs, **kw)
 
 
+class PyType:
+    """A builtin type usable both as a constructor (model function) and in isinstance()."""
+
+    _wants_interp = True
+
+    def __init__(self, pytype, conv):
+        self.pytype = pytype
+        self.conv = conv
+        self.__name__ = pytype.__name__
+        self.__qualname__ = "builtins." + pytype.__name__
+
+    def __call__(self, interp, *a, **k):
+        return self.conv(interp, *a, **k)
+
+    def __repr__(self):
+        return f"<builtin type {self.pytype.__name__}>"
+
+    def __eq__(self, other):
+        if isinstance(other, PyType):
+            return self.pytype is other.pytype
+        return other is self.pytype
+
+    def __hash__(self):
+        return hash(self.pytype)
+
+
 def b_print(*a, **k):
     return None
 
@@ -386,10 +420,10 @@ def default_builtins():
         "hasattr": b_hasattr,
         "getattr": b_getattr,
         "id": b_id,
-        "tuple": b_tuple,
-        "list": b_list,
-        "set": b_set,
-        "dict": b_dict,
+        "tuple": PyType(tuple, b_tuple),
+        "list": PyType(list, b_list),
+        "set": PyType(set, b_set),
+        "dict": PyType(dict, b_dict),
         "range": b_range,
         "enumerate": b_enumerate,
         "zip": b_zip,
@@ -398,9 +432,9 @@ def default_builtins():
         "any": b_any,
         "all": b_all,
         "sum": b_sum,
-        "bool": b_bool,
-        "int": b_int,
-        "float": b_float,
+        "bool": PyType(bool, b_bool),
+        "int": PyType(int, b_int),
+        "float": PyType(float, b_float),
         "abs": b_abs,
         "min": b_min,
         "max": b_max,
@@ -410,7 +444,7 @@ def default_builtins():
         "callable": b_callable,
         "staticmethod": b_staticmethod,
         "object": object,
-        "str": str,
+        "str": PyType(str, lambda interp, *a: str(*a)),
         "repr": lambda x: Opaque("repr"),
         "NotImplemented": NotImplemented,
         "True": True,
@@ -428,7 +462,8 @@ def default_builtins():
     }
     for nm in (
         "Any Callable Dict Optional Tuple Union Sequence Set List Type TypeVar Generic Iterable "
-        "Iterator Generator Deque NamedTuple DefaultDict Counter"
+        "Iterator Generator Deque DefaultDict Counter"
     ).split():
         b[f"typing.{nm}"] = Opaque(f"typing.{nm}")
+    b["typing.TypeVar"] = lambda *a, **k: Opaque("TypeVar")
     return b
